@@ -56,6 +56,11 @@ type Env struct {
 	// every (series, field) ever submitted in this case: the read universe
 	universe map[string]seriesField
 	dead     bool
+	// change-log bookkeeping (crash.go)
+	prevLogSize int64
+	appended    bool
+	crashPoint  string
+	crashDir    string
 }
 
 type seriesField struct {
@@ -90,6 +95,7 @@ func New() (*Env, error) {
 		return nil, err
 	}
 	e := &Env{Dir: dir, universe: map[string]seriesField{}}
+	current = e
 	if err := e.openSeriesFile(); err != nil {
 		os.RemoveAll(dir)
 		return nil, err
@@ -168,6 +174,7 @@ func (e *Env) CloseShard() error {
 
 // Reopen = clean close + open.
 func (e *Env) Reopen() error {
+	e.appended = false
 	if err := e.CloseShard(); err != nil {
 		return err
 	}
@@ -189,6 +196,9 @@ func (e *Env) ReopenAll() error {
 }
 
 func (e *Env) Close() {
+	if current == e {
+		current = nil
+	}
 	if !e.dead {
 		e.CloseShard()
 		if e.sfile != nil && !e.dead {
@@ -398,7 +408,18 @@ func (e *Env) Write(toks []string) string {
 	return res + " " + e.Read()
 }
 
+// WriteOnly runs Shard.WritePoints and renders only the result ("bad-op" for an
+// ill-formed batch).
+func (e *Env) WriteOnly(toks []string) string {
+	res := e.write(toks)
+	if res == "bad-point" {
+		return "bad-op"
+	}
+	return res
+}
+
 func (e *Env) write(toks []string) string {
+	e.BeginOp()
 	var pts []models.Point
 	for _, t := range toks {
 		p, err := ParsePt(t)
@@ -684,6 +705,7 @@ func (e *Env) DropMeasurement(m string) string {
 	if e.Sh == nil {
 		return "err:closed"
 	}
+	e.BeginOp()
 	if err := WithTimeout(func() error { return e.Sh.DeleteMeasurement(context.Background(), []byte(m)) }); err != nil {
 		if err == ErrTimeout {
 			e.dead = true
@@ -744,6 +766,7 @@ func (e *Env) Crash(edit func(shardDir string) error) error {
 	}
 	os.RemoveAll(old.Dir)
 	e.Dir, e.Sh, e.sfile = ndir, nil, nil
+	e.appended = false
 	if old.dead {
 		e.dead = true
 		return ErrTimeout
